@@ -162,6 +162,14 @@ Print Assumptions C11_register_prefix_eq_spec_off_trigger.
    lockfacts): every access of playerNames / playerIDs inside canRegisterConnection,
    registerConnection, unregisterConnection and the lookups happens with muP held, those sites exist,
    and NO function returns with a registry mutex held (no lock leak; none is tolerated any more). *)
+(* In particular the granularity the all-schedules theorems rely on: registerConnection's taken-checks
+   and its two inserts (and unregisterConnection's pointer checks and deletes) lie in ONE critical
+   section of muP, so "check and update" is one atomic action as in Model.sem (AReg / ATear). *)
+Theorem C11_register_check_insert_atomic :
+  register_check_insert_atomic = true /\ unregister_check_delete_atomic = true.
+Proof. exact (conj register_check_insert_atomic_ok unregister_check_delete_atomic_ok). Qed.
+Print Assumptions C11_register_check_insert_atomic.
+
 Theorem C11_registry_sections_locked : registry_sections_locked = true.
 Proof. exact registry_sections_locked_ok. Qed.
 Print Assumptions C11_registry_sections_locked.
